@@ -1,6 +1,6 @@
 #!/bin/bash
 # usage: confirm_seeded3.sh <ID> — round 3: confirm the change in /tmp/mw3_<ID>: suite passes with it, demo fails with it and passes without it
-ID=$1; W=/tmp/mw3_$ID; OUT=/tmp/confirm3_$ID.txt
+ID=$1; W=${MW:-/tmp/mw3}_$ID; OUT=/tmp/confirm3_$ID.txt
 cd $W || exit 3
 export CARGO_TARGET_DIR=$W/target
 git checkout -q -- regexml/src; rm -f regexml/tests/demo_seeded.rs
